@@ -40,8 +40,17 @@ def run_solver(target, setting_kw, seed, default=False):
     with warnings.catch_warnings():
         warnings.simplefilter("ignore")
         np.random.seed(seed)
+        noise = None if default else setting_kw.pop("_noise", None)
         if default:
             solver = AlternateTargetSolver(target=target, seed=seed)
+        elif noise is not None:
+            # the noise-simulating settings: every result circuit comes back annotated with depolarizing noise and scored by
+            # a noisy compile (density-matrix compiler), or scored by Monte-Carlo runs; the circuits are judged as always
+            if noise == "mc":
+                setting_kw = dict(setting_kw, monte_carlo=True,
+                                  monte_carlo_params={"n_sample": 2, "compiler": StabilizerCompiler(), "seed": 3})
+            solver = AlternateTargetSolver(target=target, compiler=StabilizerCompiler(), noise_model_mapping="depolarizing",
+                                           solver_setting=AlternateTargetSolverSetting(**setting_kw), seed=seed)
         else:
             solver = AlternateTargetSolver(target=target, compiler=StabilizerCompiler(),
                                            solver_setting=AlternateTargetSolverSetting(**setting_kw), seed=seed)
@@ -92,11 +101,15 @@ def run(ctx):
                              "lc_orbit_depth": rng.choice([None, 1, 2])}, False))
     # 5 - 7 vertex targets chosen by execution coverage of the deterministic solver underneath (engine/covpool.py): the ones
     # that reach its rarely executed code first
-    pool = cz.trs_pool()
+    pool = [g for g in cz.trs_pool() if nx.is_connected(g)]      # the property speaks of connected targets
     for k, g in enumerate(pool[:6] if ctx.quick else pool):
         jobs.append((g, {"n_iso_graphs": 2, "n_lc_graphs": 3, "lc_method": [None, "lc_with_iso", "depth_first"][k % 3],
                          "sort_emit": False, "allow_exhaustive": True, "lc_orbit_depth": None}, False))
     ctx.extra["coverage_pool_targets"] = len(pool[:6] if ctx.quick else pool)
+    for k, g in enumerate([nx.path_graph(3), nx.cycle_graph(4), nx.star_graph(3), nx.path_graph(4)] if ctx.quick else
+                          [g for g in cz.all_graphs(4) if nx.is_connected(g)][::3] + [nx.path_graph(3), nx.complete_graph(3)]):
+        jobs.append((g, {"n_iso_graphs": 2, "n_lc_graphs": 2, "lc_method": [None, "lc_with_iso"][k % 2], "sort_emit": False,
+                         "allow_exhaustive": True, "_noise": "depol" if k % 2 == 0 else "mc"}, False))
     for n in (4, 5):
         jobs.append((nx.path_graph(n), {"n_iso_graphs": 1, "n_lc_graphs": 3, "lc_method": "linear", "sort_emit": False}, False))
     # the scripted orbit methods on relabelled inputs (a path whose vertex 0 is interior, relabelled repeater graphs)
@@ -129,6 +142,7 @@ def run(ctx):
         base = cz.graph_edges1(g)
         via = "default" if default else f"lc_method={kw['lc_method']}"
         meta = {"n": n, "edges": base, "setting": "default" if default else {k: v for k, v in kw.items()}}
+        kw = dict(kw) if kw else kw
         try:
             res, solver = run_solver(g.copy(), kw, rng.randrange(1000), default)
         except Exception as ex:
